@@ -15,6 +15,21 @@ CHECKS = {
          'Units!CmpClass in exact rational arithmetic. The unit-pair space is exhausted; the value axis is sampled.'),
    ref='DESIGN.md section 4 C05, section 3.1',
    note=TB + '; values limited to 1e-150..1e150; comparisons are not judged inside the rounding band (1e-15 .. 1e-9 relative).'),
+
+ 'C06': dict(
+   technique='TLA+ dimensional algebra (Units!Dictated, QuantityOps!AllowedBin) model-checked on the design heap machine + TLC trace validation of every recorded binary operation (Trace_Quantity.tla)',
+   text=('QuantityOps.tla states, for every ordered pair of (13 kinds + number) and each of + - * /, the set of allowed outcomes (result kind from dimension vectors, exact SI magnitude, '
+         'TypeError / ValueError / ZeroDivisionError where justified). MC_Quantity explores the design heap machine (all programs of 2 constructs + 1 operation over a small value set; invariants '
+         'ResultExact, InverseLaws, HeapValid). The harness enumerates ALL kind pairs x operators (x unit pairs) on the real classes and TLC decides each recorded outcome and the two inverse laws.'),
+   ref='DESIGN.md section 4 C06, section 3.2',
+   note=TB + '; TypeError is accepted for any combination the documentation does not name (Units!MustReturn lists those that must return).'),
+ 'C19': dict(
+   technique='TLA+ quantity heap state machine (Quantity.tla) model-checked + TLC trace validation of straight-line programs with all live objects re-read after every step (Trace_Quantity.tla) + constructor constraints (Components.tla / Trace_Ctor.tla)',
+   text=('Quantity.tla is the heap-of-quantities state machine (construct, + - * /, neg, abs, to, to in place; raising actions leave the heap unchanged); TLC checks HeapValid and RaiseKeepsHeap on the design. '
+         'Programs (boundary-shaped and seeded random, magnitudes down to denormals) are executed on the real classes; after every step every live object is re-read and TLC validates outcome, '
+         'heap change and validity of every live object against the spec. Component-constructor constraints are validated the same way on a boundary grid.'),
+   ref='DESIGN.md section 4 C19, section 3.2',
+   note=TB + '; non-finite (overflowed) results are counted as unjudged; ValueError is accepted when a sign-constrained result underflows.'),
 }
 
 ALL = ['C%02d' % i for i in range(1, 21)]
